@@ -1,4 +1,5 @@
 """Per-property harness tables (what is run, in which profile, with which allowed panics)."""
+import re
 from vdriver import H
 
 PROPS = {}
@@ -260,12 +261,19 @@ HEAVY = {  # harness -> (mem_gb, timeout_s): thorough tier only
 }
 
 
+# quick-tier instances that need more than the default 8 GB (budgeted by the driver: HeavyBudget)
+QUICK_HEAVY = {}
+
+
 def mux_prop(pid, names, thorough_only=(), notes=None, extra_unwindset=(), **kw):
     hs = []
     for n in names:
         heavy = HEAVY.get(n)
         tier = "thorough" if (n in thorough_only or heavy or n.startswith("c10_connect_")) else "quick"
         mem, tmo = heavy if heavy else ((26, 2400) if n.startswith("c10_connect_") else (None, None))
+        for rx, mt in QUICK_HEAVY.items():
+            if re.match(rx, n):
+                mem, tmo = mt
         hs.append(H(n, tier=tier, profiles=("dev", "rel"), unwindset=list(extra_unwindset) + vec_loops(2), mem_gb=mem, timeout=tmo, note=(notes or {}).get(n, kw.get("note", ""))))
     # native replay of in-crate harnesses: real bytes / hashbrown / parking_lot / futures /
     # rand; the tokio model (virtual clock, inspectable channels) and the tracing model
@@ -362,7 +370,7 @@ PROPS["C13"] = mux_prop(
     "C13", pick("c13_"),
     # the coalescing loop runs at most once per script entry (3), the relay loop once per byte
     # written or per frame (<= 3 bytes, 2 frames, EOF)
-    extra_unwindset=[(r"poll_write_us", 5), (r"poll_read_us", 7)],
+    extra_unwindset=[(r"poll_write_us", 5), (r"poll_read_us", 6), (r"poll_for_push", 3)],
     note="one poll of the bridge with a solver-scripted local side and a real MuxStream in an arbitrary bounded state",
     bounds=dict(local_side="fill_buf script of 3 entries over {Pending, 1 byte, 2 bytes, EOF, Err}; write: Pending / Err / accepts <= 1 or 2 bytes; flush and shutdown: Ok / Pending / Err",
                 mux_side="credit 0,1,2; closed flag symbolic; 0..2 queued frames; peer finished or not", polls="one poll per direction (poll_write_us / poll_read_us from Transferring(0)) and one poll of the whole future"),
